@@ -176,4 +176,114 @@ func runC47(p *core.Prog, r *core.Report) {
 		}},
 		{Sink: "(*pkg/local_object_storage/engine.StorageEngine).DeleteContainer", Allowed: map[string]string{}},
 	})
+	// R6: what UnpaidSince answers from
+	r6 := r.Rule("C47.R6", "the node's payment-status cache (paymentChecker.statuses, the source of every UnpaidSince answer) is written only with a value the FS chain returned without error (UnpaidSince, after GetUnpaidContainerEpoch err == nil, that call's own result) or by the ChangePaymentStatus notification handler (the event's epoch when unpaid, -1 when paid)", 3)
+	const stField = "(cmd/neofs-node.paymentChecker).statuses"
+	const getUnpaid = "(*pkg/morph/client/balance.Client).GetUnpaidContainerEpoch"
+	isStatusesUpdate := func(in ssa.Instruction) (*ssa.MapUpdate, bool) {
+		mu, ok := in.(*ssa.MapUpdate)
+		if !ok {
+			return nil, false
+		}
+		_, path := core.AccessPath(mu.Map)
+		if len(path) == 0 || path[len(path)-1] != "statuses" {
+			return nil, false
+		}
+		u, ok := mu.Map.(*ssa.UnOp)
+		if !ok {
+			return nil, false
+		}
+		fa, ok := u.X.(*ssa.FieldAddr)
+		return mu, ok && core.FieldAddrName(fa) == stField
+	}
+	nUpd := 0
+	for _, f := range p.FuncsIn("cmd/neofs-node") {
+		f := f
+		has := false
+		for _, b := range f.Blocks {
+			for _, in := range b.Instrs {
+				if _, ok := isStatusesUpdate(in); ok {
+					has = true
+				}
+			}
+		}
+		if !has {
+			continue
+		}
+		switch core.FuncName(f) {
+		case "(*cmd/neofs-node.paymentChecker).UnpaidSince":
+			core.CheckEffectsFn(p, r6, f, core.EffectRule{Min: 1, Guards: []core.Guard{core.G("chain-answered", core.ErrNil, getUnpaid)},
+				Effect: func(_ *core.Prog, in ssa.Instruction) (string, bool) {
+					if _, ok := isStatusesUpdate(in); ok {
+						nUpd++
+						return "statuses[cID]=", true
+					}
+					return "", false
+				}})
+			for _, b := range f.Blocks {
+				for _, in := range b.Instrs {
+					if mu, ok := isStatusesUpdate(in); ok {
+						ex, isEx := core.Unwrap(mu.Value).(*ssa.Extract)
+						good := false
+						if isEx && ex.Index == 0 {
+							if c, isC := ex.Tuple.(*ssa.Call); isC && core.CalleeName(c) == getUnpaid {
+								good = true
+							}
+						}
+						r6.Check(good, core.FuncName(f)+"#statuses[cID]=!value-from-chain", p.InstrPos(in), "the cached value is the chain call's own result", "the cached value is not the result of GetUnpaidContainerEpoch")
+					}
+				}
+			}
+		case "cmd/neofs-node.initPaymentChecker$1":
+			unpaidFlag := core.Guard{Name: "event-says-unpaid", Comps: []core.Comp{{Result: -1, Kind: core.IsTrue}}, Value: func(_ *ssa.Function, v ssa.Value) bool {
+				_, path := core.AccessPath(v)
+				_, isLoad := v.(*ssa.UnOp)
+				_, isField := v.(*ssa.Field)
+				return (isLoad || isField) && len(path) > 0 && path[len(path)-1] == "Unpaid"
+			}, Pure: true}
+			paidFlag := unpaidFlag
+			paidFlag.Name, paidFlag.Comps = "event-says-paid", []core.Comp{{Result: -1, Kind: core.IsFalse}}
+			core.CheckEffectsFn(p, r6, f, core.EffectRule{Min: 2, Guards: []core.Guard{unpaidFlag, paidFlag},
+				Effect: func(_ *core.Prog, in ssa.Instruction) (string, bool) {
+					mu, ok := isStatusesUpdate(in)
+					if !ok {
+						return "", false
+					}
+					nUpd++
+					if c, isC := intConstOf(mu.Value); isC {
+						if c < 0 {
+							return "statuses[cID]=paid", true
+						}
+						return "statuses[cID]=const", true
+					}
+					_, path := core.AccessPath(core.Unwrap(mu.Value))
+					if len(path) > 0 && path[len(path)-1] == "Epoch" {
+						return "statuses[cID]=event-epoch", true
+					}
+					return "statuses[cID]=other", true
+				},
+				Need: func(desc string) []string {
+					switch desc {
+					case "statuses[cID]=paid":
+						return []string{"event-says-paid"}
+					case "statuses[cID]=event-epoch":
+						return []string{"event-says-unpaid"}
+					}
+					return []string{"event-says-paid", "event-says-unpaid"} // unsatisfiable: unrecognised value
+				}})
+		default:
+			for _, b := range f.Blocks {
+				for _, in := range b.Instrs {
+					if _, ok := isStatusesUpdate(in); ok {
+						nUpd++
+						r6.Bad(core.FuncName(f)+"#statuses[cID]=", p.InstrPos(in), "the payment-status cache is written outside UnpaidSince and the ChangePaymentStatus handler")
+					}
+				}
+			}
+		}
+	}
+	if nUpd < 3 {
+		r.Fatalf("C47.R6: %d writes of %s found, expected at least 3", nUpd, stField)
+	}
+
 }
